@@ -11,14 +11,19 @@ package c04
 // slice is a complete product of stated domains (see c.Rule / bounds.slices).
 
 import (
+	"bytes"
+	"context"
+	"errors"
 	"fmt"
 	"os"
+	"os/exec"
 	"path/filepath"
 	"runtime"
 	"sort"
 	"strconv"
 	"strings"
 	"sync/atomic"
+	"syscall"
 	"testing"
 	"time"
 
@@ -748,9 +753,9 @@ func (ev *env) execCase(cs *caseSpec) (res vx.Result) {
 				panic(err)
 			}
 		case pDeletedStaged:
-			if r := ev.gw.Git(local, "rm", "-q", "--", p.path); !r.OK() {
-				if r.TimedOut {
-					res.Inconcl = "git rm timeout"
+			if r := ev.git(local, nil, "rm", "-q", "--", p.path); !r.OK() {
+				if r.TimedOut || r.Code == -2 {
+					res.Inconcl = "git rm timeout or not started (tool environment)"
 					return
 				}
 				panic("git rm failed: " + r.String())
@@ -794,15 +799,15 @@ func (ev *env) execCase(cs *caseSpec) (res vx.Result) {
 			args = append(args, "origin", fetchName(cs.target))
 		}
 		shown = "git lfs " + strings.Join(args, " ")
-		r = ev.gw.RunIn(local, nil, envx, lfsbin, args...)
+		r = ev.runCmd(local, envx, lfsbin, args...)
 	case cPull:
 		args := append([]string{"pull"}, cs.filter.cliArgs()...)
 		shown = "git lfs " + strings.Join(args, " ")
-		r = ev.gw.RunIn(filepath.Join(local, cs.cwd), nil, envx, lfsbin, args...)
+		r = ev.runCmd(filepath.Join(local, cs.cwd), envx, lfsbin, args...)
 	case cLco:
 		args := append([]string{"checkout"}, cs.lco.args...)
 		shown = "git lfs " + strings.Join(args, " ")
-		r = ev.gw.RunIn(filepath.Join(local, cs.lco.cwd), nil, envx, lfsbin, args...)
+		r = ev.runCmd(filepath.Join(local, cs.lco.cwd), envx, lfsbin, args...)
 	case cClone:
 		args := []string{"clone", "-q"}
 		for _, l := range cfgLines {
@@ -817,13 +822,17 @@ func (ev *env) execCase(cs *caseSpec) (res vx.Result) {
 		}
 		args = append(args, bw.remote, local)
 		shown = "git " + strings.Join(args, " ")
-		r = ev.gw.GitE(caseDir, envx, args...)
+		r = ev.git(caseDir, envx, args...)
 	case cGco:
 		shown = "git checkout -q " + cs.target
-		r = ev.gw.GitE(local, envx, "checkout", "-q", cs.target)
+		r = ev.git(local, envx, "checkout", "-q", cs.target)
 	}
 	if r.TimedOut {
 		res.Inconcl = cmdName + " timeout"
+		return
+	}
+	if r.Code == -2 {
+		res.Inconcl = cmdName + " could not be started (tool environment)"
 		return
 	}
 	postWT := gitx.DigestTree(local, skipGit)
@@ -1078,6 +1087,63 @@ func (ev *env) execCase(cs *caseSpec) (res vx.Result) {
 	return res
 }
 
+// runCmd runs a program under the hermetic environment of the world.  Unlike gitx.RunIn it (a) retries when the
+// process could not be STARTED (fork/exec failure under heavy machine load: nothing has run yet, so a retry is safe)
+// and (b) accepts an exit status that arrives while a grandchild (git's filter process) still holds the output
+// pipes open (exec.ErrWaitDelay): the command itself has finished and its status is what counts.
+func (ev *env) runCmd(dir string, extraEnv []string, name string, args ...string) gitx.Res {
+	var r gitx.Res
+	for attempt := 0; attempt < 6; attempt++ {
+		ctx, cancel := context.WithTimeout(context.Background(), gitx.CmdTimeout)
+		cmd := exec.CommandContext(ctx, name, args...)
+		cmd.Dir = dir
+		cmd.Env = ev.gw.Env(extraEnv...)
+		var out, errb bytes.Buffer
+		cmd.Stdout, cmd.Stderr = &out, &errb
+		cmd.SysProcAttr = &syscall.SysProcAttr{Setpgid: true}
+		cmd.Cancel = func() error { return syscall.Kill(-cmd.Process.Pid, syscall.SIGKILL) }
+		cmd.WaitDelay = 20 * time.Second
+		err := cmd.Start()
+		if err != nil {
+			cancel()
+			r = gitx.Res{Code: -2, Err: "[exec error] " + err.Error()}
+			time.Sleep(time.Duration(200*(attempt+1)) * time.Millisecond)
+			continue
+		}
+		err = cmd.Wait()
+		timedOut := ctx.Err() == context.DeadlineExceeded
+		cancel()
+		r = gitx.Res{Out: out.String(), Err: errb.String()}
+		if timedOut {
+			r.TimedOut, r.Code = true, -1
+			return r
+		}
+		if err != nil {
+			if ee, ok := err.(*exec.ExitError); ok {
+				r.Code = ee.ExitCode()
+			} else if errors.Is(err, exec.ErrWaitDelay) && cmd.ProcessState != nil {
+				r.Code = cmd.ProcessState.ExitCode()
+			} else {
+				r.Code = -2
+				r.Err += "\n[exec error] " + err.Error()
+			}
+		}
+		return r
+	}
+	return r
+}
+
+// git runs the system git under the hermetic environment.
+func (ev *env) git(dir string, extraEnv []string, args ...string) gitx.Res {
+	return ev.runCmd(dir, extraEnv, ev.gitPath, args...)
+}
+
+func (ev *env) mustGit(dir string, args ...string) {
+	if r := ev.git(dir, nil, args...); !r.OK() {
+		panic(fmt.Sprintf("git %v in %s failed: %s", args, dir, r))
+	}
+}
+
 // copyTree copies a prepared directory tree like cp -a (modes, symlinks, file and directory mtimes) without a subprocess.
 func copyTree(src, dst string) {
 	type dirTime struct {
@@ -1153,6 +1219,10 @@ func TestVerifC04(t *testing.T) {
 	ev := &env{gw: gw, srv: srv, defs: defs, built: map[int]*builtWorldEntry{}, bases: map[baseKey]*baseEntry{}, root: gw.Root,
 		cases: filepath.Join(gw.Root, "cases"), lackOid: gitx.Oid(cA2)}
 	os.MkdirAll(ev.cases, 0755)
+	if ev.gitPath, err = exec.LookPath("git"); err != nil {
+		fmt.Println("TOOL-ERROR git not found:", err)
+		os.Exit(2)
+	}
 	ev.installServerHook()
 	ev.plan = makePlan(defs, c.Thorough())
 	finish := func(code int) {
